@@ -70,6 +70,84 @@ pub fn digit_alphabet(w: u32) -> Vec<u64> {
     raw.into_iter().filter(|v| seen.insert(*v)).collect()
 }
 
+/// inverse of an odd digit modulo 2^w (Newton iteration)
+fn inv_mod_pow2(a: u64, w: u32) -> u64 {
+    debug_assert!(a & 1 == 1);
+    let mut x = a; // correct to 3 bits
+    for _ in 0..6 {
+        x = x.wrapping_mul(2u64.wrapping_sub(a.wrapping_mul(x)));
+    }
+    x & mask(w)
+}
+
+/// **Product-landmark digits**: digits whose pairwise double-width products have *boundary halves*
+/// (the digit-level boundary of a multiply-accumulate or of a quotient-digit estimate is a boundary of
+/// the product, not of the factors): factor pairs of 2^w - 1 (high half 0, low half all ones) and of
+/// 2^w + 1 (high half = low half; the Fermat-number factorisations), their largest multiples below 2^w,
+/// and modular inverses of small / generic odd digits (low half exactly 1 or all ones).
+pub fn landmark_digits(w: u32) -> Vec<u64> {
+    let m = mask(w);
+    // prime factors of 2^w - 1 and 2^w + 1
+    let (minus, plus): (&[u64], &[u64]) = match w {
+        8 => (&[3, 5, 17], &[257]),
+        16 => (&[3, 5, 17, 257], &[65537]),
+        32 => (&[3, 5, 17, 257, 65537], &[641, 6700417]),
+        64 => (&[3, 5, 17, 257, 641, 65537, 6700417], &[274177, 67280421310721]),
+        _ => (&[], &[]),
+    };
+    let mut out: Vec<u64> = Vec::new();
+    // (p, (2^w - 1) / p) and the balanced pair (2^(w/2) - 1, 2^(w/2) + 1)
+    for &p in minus {
+        out.push(p);
+        out.push(m / p);
+    }
+    out.push((1u64 << (w / 2)) - 1);
+    out.push((1u64 << (w / 2)) + 1);
+    // factors of 2^w + 1 (when both fit in a digit), the largest multiple below 2^w and a small multiple
+    if plus.len() == 2 {
+        for &p in plus {
+            out.push(p);
+            out.push(p * (m / p));
+            out.push(p.wrapping_mul(3) & m);
+        }
+    }
+    // modular inverses: a * inv(a) = 1 (mod 2^w), a * (-inv(a)) = -1 (mod 2^w)
+    let g1 = digit_alphabet(w)[4] | 1;
+    let g2 = digit_alphabet(w).get(10).copied().unwrap_or(7) | 1;
+    for a in [3u64, 5, 7, 11, g1, g2] {
+        let a = a & m;
+        let i = inv_mod_pow2(a, w);
+        out.push(a);
+        out.push(i);
+        out.push(i.wrapping_neg() & m);
+    }
+    let mut seen = HashSet::new();
+    out.into_iter().filter(|v| *v <= m && seen.insert(*v)).collect()
+}
+
+/// landmark grid: every digit position takes a landmark digit or one of {0, 1, 2^w - 1}
+pub fn landmark_grid(w: u32, n: usize, k: usize) -> Vec<Vec<u8>> {
+    let mut alpha: Vec<u64> = vec![0, 1, mask(w)];
+    for d in landmark_digits(w) {
+        if !alpha.contains(&d) {
+            alpha.push(d);
+        }
+    }
+    alpha.truncate(k.max(3));
+    let k = alpha.len();
+    let total = (k as u64).pow(n as u32);
+    let mut out = Vec::with_capacity(total as usize);
+    for mut idx in 0..total {
+        let mut v = Vec::with_capacity(n * (w / 8) as usize);
+        for _ in 0..n {
+            push_digit(&mut v, alpha[(idx % k as u64) as usize], w);
+            idx /= k as u64;
+        }
+        out.push(v);
+    }
+    out
+}
+
 fn push_digit(out: &mut Vec<u8>, d: u64, w: u32) {
     for j in 0..(w / 8) {
         out.push((d >> (8 * j)) as u8);
@@ -237,6 +315,65 @@ pub fn sparse(w: u32, n: usize, k: usize, max_replaced: usize) -> Vec<Vec<u8>> {
     dedup(out)
 }
 
+/// value set for the widest configurations (8192 bits: N = 1024 / 512 / 256 / 128): a few dozen values —
+/// range ends, fills, *dense* digit patterns (every digit large / every digit generic, so that per-column
+/// sums and counters over all N digits take their largest values), half-range runs, single bits and
+/// sparse boundary digits at the ends and in the middle
+pub fn huge(w: u32, n: usize) -> Vec<Vec<u8>> {
+    let m = mask(w);
+    let alpha = digit_alphabet(w);
+    let (g1, g2) = (alpha[4], alpha.get(10).copied().unwrap_or(m / 5));
+    let mk = |f: &dyn Fn(usize) -> u64| {
+        let mut v = Vec::with_capacity(n * (w / 8) as usize);
+        for i in 0..n {
+            push_digit(&mut v, f(i) & m, w);
+        }
+        v
+    };
+    let top = 1u64 << (w - 1);
+    let mut out: Vec<Vec<u8>> = vec![
+        mk(&|_| 0),
+        mk(&|i| (i == 0) as u64),
+        mk(&|_| m),
+        mk(&|i| if i == n - 1 { top } else { 0 }),
+        mk(&|i| if i == n - 1 { top - 1 } else { m }),
+        mk(&|i| if i == 0 { m - 1 } else { m }),
+        mk(&|i| if i == 0 { 2 } else { 0 }),
+        mk(&|_| g1),
+        mk(&|_| g2),
+        mk(&|_| m - 12),
+        mk(&|_| m / 3),
+        mk(&|_| (m / 3) * 2),
+        mk(&|i| if i % 2 == 0 { g1 } else { m }),
+        mk(&|i| (i as u64).wrapping_mul(0x9E3779B97F4A7C15) >> (64 - w) | 1),
+        mk(&|i| if i < n / 2 { m } else { 0 }),
+        mk(&|i| if i < n / 2 { 0 } else { m }),
+        mk(&|i| if i == n / 2 { 1 } else { 0 }),
+        mk(&|i| if i == n / 2 - 1 { top } else { 0 }),
+        mk(&|i| if i == n - 1 { 1 } else { 0 }),
+        mk(&|i| if i == n - 1 { m } else { 0 }),
+        mk(&|i| if i == n - 1 { top | 1 } else if i == 0 { 1 } else { 0 }),
+        mk(&|i| if i == 1 { g1 } else if i == 0 { g2 } else { 0 }),
+        mk(&|i| if i == 0 { 10 } else { 0 }),
+        mk(&|i| if i == 0 { 3 } else { 0 }),
+        mk(&|i| if i == 0 { m } else { 0 }),
+        mk(&|i| if i == 1 { 1 } else { 0 }),
+        mk(&|i| if i == 0 { m - 2 } else if i == n - 1 { m >> 1 } else { m }),
+        mk(&|i| if i + 2 >= n { 0 } else { g2 }),
+        mk(&|i| if i < 2 { 0 } else { g1 }),
+        mk(&|i| if i == n - 1 { top } else { g2 }),
+        mk(&|i| if i == 0 { m - 9 } else { m }),
+        mk(&|i| if i == n - 1 { top } else if i == 0 { 1 } else { 0 }),
+    ];
+    // dense values with digit counts around the 256-digit counter boundary (u8 column counters)
+    for k in [255usize, 256, 257, 258] {
+        if k < n {
+            out.push(mk(&|i| if i < k { m } else { 0 }));
+        }
+    }
+    dedup(out)
+}
+
 #[derive(Clone, Copy, PartialEq, Eq, Debug)]
 pub enum Tier {
     Quick,
@@ -267,6 +404,7 @@ pub fn structured(w: u32, n: usize, tier: Tier) -> Vec<Vec<u8>> {
             v.extend(masks(w, 4, false));
             v
         }
+        _ if n > 100 => return huge(w, n),
         _ => sparse(w, n, if tier == Tier::Thorough { 6 } else { 4 }, if tier == Tier::Thorough { 3 } else { 2 }),
     };
     out.extend(smalls(bytes));
@@ -286,6 +424,9 @@ pub fn structured_small(w: u32, n: usize, tier: Tier) -> Vec<Vec<u8>> {
         (4, Tier::Thorough) => 4,
         _ => 0,
     };
+    if n > 100 {
+        return huge(w, n).into_iter().take(14).collect();
+    }
     let mut out = if n <= 4 { grid(w, n, k) } else { sparse(w, n, 3, 1) };
     out.extend(smalls(bytes).into_iter().take(12));
     dedup(out)
